@@ -59,6 +59,30 @@ enum Op {
 	Segmenter,
 	Compact,
 	ValidateFast,
+	/// `get_merkle_proof(output, header of a delivered block)`: a READ-ONLY extension under the write
+	/// locks that rewinds the whole txhashset to another block (possibly on a losing fork) and must
+	/// leave no trace (`View` / `HeaderView` of the other threads are the oracle)
+	MerkleProof(usize, usize),
+	/// `get_locator_hashes(tip of a delivered block, heights)`: read-only HEADER extension rewound to a
+	/// fork tip; every hash answered must be the ancestor of that block at that height
+	Locator(usize),
+	/// a reader holding `header_pmmr.read()`: the header MMR must be that of the LMDB header head
+	HeaderView,
+	/// `verify_coinbase_maturity(tx.inputs())` (read-lock path, or the write-lock path when the header
+	/// chain is on another fork than the body)
+	CoinbaseMaturity(usize),
+	/// `validate_inputs(tx.inputs())`
+	ValidateInputs(usize),
+	/// `unspent_outputs_by_pmmr_index` + `get_last_n_output` + `get_last_n_rangeproof` (one view each)
+	PmmrIndex(u64),
+	/// `get_output_pos` then `get_unspent_output_at`
+	OutputPos(usize),
+	/// `block_height_range_to_pmmr_indices`
+	HeightRange(u64),
+	/// `fork_point()`
+	ForkPoint,
+	/// `is_orphan` + `orphans_len`
+	OrphanInfo(usize),
 	/// not a chain op: a second `Store` handle on the chain's LMDB environment (as the peer store has)
 	/// commits a value of 48 KiB, pushing the environment over its resize threshold again and again
 	/// while the chain ops (NRD validate_tx: extending_readonly with nested reads, …) run
@@ -85,6 +109,17 @@ impl Op {
 			Op::Segmenter => vec!["segmenter", "Segmenter::kernel_segment", "Segmenter::output_segment"],
 			Op::Compact => vec!["compact"],
 			Op::ValidateFast => vec!["validate"],
+			Op::MerkleProof(_, _) => vec!["get_merkle_proof"],
+			Op::Locator(_) => vec!["get_locator_hashes"],
+			// like `View`: takes header_pmmr.read() itself (through Chain::header_pmmr()); lock-free calls inside
+			Op::HeaderView => vec!["header_pmmr", "header_head"],
+			Op::CoinbaseMaturity(_) => vec!["verify_coinbase_maturity"],
+			Op::ValidateInputs(_) => vec!["validate_inputs"],
+			Op::PmmrIndex(_) => vec!["unspent_outputs_by_pmmr_index", "get_last_n_output", "get_last_n_rangeproof"],
+			Op::OutputPos(_) => vec!["get_output_pos", "get_unspent_output_at"],
+			Op::HeightRange(_) => vec!["block_height_range_to_pmmr_indices"],
+			Op::ForkPoint => vec!["fork_point"],
+			Op::OrphanInfo(_) => vec!["is_orphan", "orphans_len"],
 			Op::Fill(_) => vec![],
 		}
 	}
@@ -104,6 +139,16 @@ impl Op {
 			Op::Segmenter => "segmenter",
 			Op::Compact => "compact",
 			Op::ValidateFast => "validate_fast",
+			Op::MerkleProof(_, _) => "get_merkle_proof",
+			Op::Locator(_) => "get_locator_hashes",
+			Op::HeaderView => "header_view",
+			Op::CoinbaseMaturity(_) => "verify_coinbase_maturity",
+			Op::ValidateInputs(_) => "validate_inputs",
+			Op::PmmrIndex(_) => "pmmr_index",
+			Op::OutputPos(_) => "output_pos",
+			Op::HeightRange(_) => "height_range",
+			Op::ForkPoint => "fork_point",
+			Op::OrphanInfo(_) => "orphan_info",
 			Op::Fill(_) => "fill_db",
 		}
 	}
@@ -119,6 +164,10 @@ struct Scenario {
 	txs: Vec<Transaction>,
 	templates: Vec<Block>,
 	max_height: u64,
+	out_ids: Vec<grin_core::core::OutputIdentifier>,
+	commit_set: std::collections::HashSet<Commitment>,
+	/// per block: the outputs unspent in the state of that block (for get_merkle_proof pairs that exist)
+	unspent_at: Vec<Vec<usize>>,
 }
 
 #[derive(Default)]
@@ -467,6 +516,137 @@ fn exec(sh: &Shared, op: &Op, log: &mut ThreadLog, tid: usize) {
 			}
 			note(log, format!("validate_fast:{}", cls(&r)));
 		}
+		Op::MerkleProof(o, b) => {
+			let out_id = sc.out_ids[*o];
+			let r = c.get_merkle_proof(out_id, &sc.blocks[*b].header);
+			note(log, format!("get_merkle_proof:{}", cls(&r)));
+		}
+		Op::Locator(b) => {
+			let hdr = &sc.blocks[*b].header;
+			// heights h, h-1, h-2, h-4, ... , 0 and one beyond the tip
+			let mut heights: Vec<u64> = vec![hdr.height + 1, hdr.height];
+			let mut step = 1u64;
+			let mut cur = hdr.height;
+			while cur > 0 {
+				cur = cur.saturating_sub(step);
+				heights.push(cur);
+				step *= 2;
+			}
+			let r = c.get_locator_hashes(grin_chain::Tip::from_header(hdr), &heights);
+			if let Ok(hashes) = &r {
+				// expected: the ancestors of block b (the height beyond its tip has no entry)
+				let mut anc: BTreeMap<u64, Hash> = BTreeMap::new();
+				let mut x = Some(*b);
+				while let Some(i) = x {
+					anc.insert(sc.blocks[i].header.height, sc.blocks[i].hash());
+					x = sc.parent[i];
+				}
+				let expect: Vec<Hash> = heights.iter().filter_map(|h| anc.get(h).cloned()).collect();
+				if *hashes != expect {
+					log.fails.push(format!(
+						"get_locator_hashes(tip b{} at height {}, heights {:?}) answered {} hashes {:?}, the ancestors of that block are {:?} (thread {})",
+						b, hdr.height, heights, hashes.len(), hashes, expect, tid
+					));
+				}
+			}
+			note(log, format!("get_locator_hashes:{}", cls(&r)));
+		}
+		Op::HeaderView => {
+			// one view of the header MMR: hold header_pmmr.read(); no header commit can happen meanwhile
+			let hp = c.header_pmmr();
+			let g = hp.read();
+			match (c.header_head(), g.head_hash()) {
+				(Ok(hh), Ok(mmr_head)) => {
+					let by_height = g.get_header_hash_by_height(hh.height);
+					if mmr_head != hh.last_block_h || by_height.as_ref().ok() != Some(&hh.last_block_h) {
+						log.fails.push(format!(
+							"view under header_pmmr.read(): the header MMR (head {}, entry at height {}: {:?}) is not that of the LMDB header head {} @ {} (thread {})",
+							mmr_head, hh.height, by_height.ok(), hh.last_block_h, hh.height, tid
+						));
+					}
+					note(log, "header_view:ok".into());
+				}
+				(a, b2) => log.fails.push(format!("header view: header_head {:?} head_hash {:?}", a.is_ok(), b2.is_ok())),
+			}
+		}
+		Op::CoinbaseMaturity(i) => {
+			let r = c.verify_coinbase_maturity(&sc.txs[*i].inputs());
+			note(log, format!("verify_coinbase_maturity:{}", cls(&r)));
+		}
+		Op::ValidateInputs(i) => {
+			let r = c.validate_inputs(&sc.txs[*i].inputs());
+			note(log, format!("validate_inputs:{}", cls(&r)));
+		}
+		Op::PmmrIndex(start) => {
+			let r = c.unspent_outputs_by_pmmr_index(*start, 64, None);
+			match &r {
+				Ok((last, _, outs)) => {
+					// read under ONE txhashset.read(): outputs and range proofs must pair up, and every
+					// output returned is one the builder created
+					for o in outs {
+						if !sc.commit_set.contains(&o.commitment()) {
+							log.fails.push(format!("unspent_outputs_by_pmmr_index({}) returned an output nobody created: {:?} (thread {})", start, o.commitment(), tid));
+						}
+					}
+					if !outs.is_empty() && *last < *start {
+						log.fails.push(format!("unspent_outputs_by_pmmr_index({}) last index {} below the start (thread {})", start, last, tid));
+					}
+				}
+				Err(e) => log.fails.push(format!("unspent_outputs_by_pmmr_index({}) failed under one txhashset.read(): {} (thread {})", start, error_class(e), tid)),
+			}
+			let lo = c.get_last_n_output(4);
+			let lr = c.get_last_n_rangeproof(4);
+			for (_, id) in &lo {
+				if !sc.commit_set.contains(&id.commitment()) {
+					log.fails.push(format!("get_last_n_output returned an output nobody created: {:?} (thread {})", id.commitment(), tid));
+				}
+			}
+			note(log, format!("pmmr_index:{}:last_n={}/{}", cls(&r), lo.len().min(4), lr.len().min(4)));
+		}
+		Op::OutputPos(i) => {
+			let r = c.get_output_pos(&sc.commits[*i]);
+			let k = match &r {
+				Ok(pos) => match c.get_unspent_output_at(pos.saturating_sub(1)) {
+					Ok(_) => "pos:at:ok".to_string(),
+					Err(e) => format!("pos:at:err:{}", error_class(&e)),
+				},
+				Err(e) => format!("err:{}", error_class(e)),
+			};
+			note(log, format!("output_pos:{}", k));
+		}
+		Op::HeightRange(h) => {
+			let r = c.block_height_range_to_pmmr_indices(*h, None);
+			note(log, format!("height_range:{}", cls(&r)));
+		}
+		Op::ForkPoint => {
+			let r = c.fork_point();
+			if let Ok(fp) = &r {
+				// the fork point is a block of the body chain: stored (unless compaction removed it)
+				if fp.height > 0 && !sh.compacted.load(Ordering::SeqCst) && c.get_block(&fp.hash()).is_err() && !sh.compacted.load(Ordering::SeqCst) {
+					log.fails.push(format!("fork_point() names block {} @ {} which is not stored (thread {})", fp.hash(), fp.height, tid));
+				}
+			}
+			note(log, format!("fork_point:{}", cls(&r)));
+		}
+		Op::OrphanInfo(b) => {
+			let is = c.is_orphan(&sc.blocks[*b].hash());
+			let n = c.orphans_len();
+			if n > grin_chain::MAX_ORPHAN_SIZE + 1 {
+				log.fails.push(format!("orphans_len() = {} above MAX_ORPHAN_SIZE (thread {})", n, tid));
+			}
+			note(log, format!("orphan_info:is_orphan={}", is));
+		}
+	}
+}
+
+/// (output, block) for `get_merkle_proof`: mostly an output that is unspent in the state of that block
+fn merkle_pair(rng: &mut Rng, sc: &Scenario) -> Op {
+	let b = rng.range(1, sc.blocks.len() as u64 - 1) as usize;
+	let us = &sc.unspent_at[b];
+	if !us.is_empty() && rng.chance(4, 5) {
+		Op::MerkleProof(us[rng.below(us.len() as u64) as usize], b)
+	} else {
+		Op::MerkleProof(rng.below(sc.commits.len() as u64) as usize, b)
 	}
 }
 
@@ -761,6 +941,7 @@ fn run(out: &mut Out, rng: &mut Rng, work: &str, cfg: &RunCfg, stats: &mut BTree
 		out.raw(&kit.blk_line(id));
 	}
 
+	let templates_commits: Vec<Commitment> = templates.iter().flat_map(|t| t.outputs().iter().map(|o| o.commitment()).collect::<Vec<_>>()).collect();
 	let mut kernels = vec![];
 	for r in &kit.blks {
 		for k in r.block.kernels() {
@@ -776,6 +957,24 @@ fn run(out: &mut Out, rng: &mut Rng, work: &str, cfg: &RunCfg, stats: &mut BTree
 		txs,
 		templates,
 		max_height: kit.blks.iter().map(|r| r.height).max().unwrap(),
+		out_ids: kit
+			.outs
+			.iter()
+			.map(|o| grin_core::core::OutputIdentifier::new(if o.coinbase { grin_core::core::OutputFeatures::Coinbase } else { grin_core::core::OutputFeatures::Plain }, &o.commit))
+			.collect(),
+		unspent_at: (0..kit.blks.len()).map(|i| b.states.get(&i).map(|m| m.keys().cloned().collect()).unwrap_or_default()).collect(),
+		commit_set: {
+			let mut set: std::collections::HashSet<Commitment> = std::collections::HashSet::new();
+			for r in &kit.blks {
+				for o in r.block.outputs() {
+					set.insert(o.commitment());
+				}
+			}
+			for t in &templates_commits {
+				set.insert(*t);
+			}
+			set
+		},
 	});
 
 	// --- sequential twin: same blocks, creation order (parents first), one thread
@@ -818,7 +1017,7 @@ fn run(out: &mut Out, rng: &mut Rng, work: &str, cfg: &RunCfg, stats: &mut BTree
 			if with_kh && rng.chance(1, 3) {
 				return Op::KernelHeight(rng.below(sc.kernels.len() as u64) as usize);
 			}
-			match rng.below(12) {
+			match rng.below(22) {
 				0 | 1 => Op::ReadHead,
 				2 | 3 => Op::View,
 				4 | 5 => Op::GetUnspent(rng.below(sc.commits.len() as u64) as usize),
@@ -826,6 +1025,26 @@ fn run(out: &mut Out, rng: &mut Rng, work: &str, cfg: &RunCfg, stats: &mut BTree
 				7 => Op::HeaderForOutput(rng.below(sc.commits.len() as u64) as usize),
 				8 => Op::KernelHeight(rng.below(sc.kernels.len() as u64) as usize),
 				9 | 10 if !sc.txs.is_empty() => Op::ValidateTx(rng.below(sc.txs.len() as u64) as usize),
+				12 | 13 => Op::HeaderView,
+				14 => Op::Locator(rng.range(1, sc.blocks.len() as u64 - 1) as usize),
+				15 => merkle_pair(rng, sc),
+				16 if !sc.txs.is_empty() => {
+					if rng.chance(1, 2) {
+						Op::CoinbaseMaturity(rng.below(sc.txs.len() as u64) as usize)
+					} else {
+						Op::ValidateInputs(rng.below(sc.txs.len() as u64) as usize)
+					}
+				}
+				17 => Op::PmmrIndex(rng.range(1, 40)),
+				18 => Op::OutputPos(rng.below(sc.commits.len() as u64) as usize),
+				19 => Op::HeightRange(rng.below(sc.max_height + 1)),
+				20 => {
+					if rng.chance(1, 2) {
+						Op::ForkPoint
+					} else {
+						Op::OrphanInfo(rng.range(1, sc.blocks.len() as u64 - 1) as usize)
+					}
+				}
 				_ => Op::ReadHead,
 			}
 		};
@@ -884,6 +1103,8 @@ fn run(out: &mut Out, rng: &mut Rng, work: &str, cfg: &RunCfg, stats: &mut BTree
 						5 => Op::ValidateFast,
 						6 | 7 if !sc.txs.is_empty() => Op::ValidateTx(rng.below(sc.txs.len() as u64) as usize),
 						8 | 9 if cfg.long => Op::Fill(rng.below(100_000)),
+						10 => merkle_pair(rng, &sc),
+						11 => Op::Locator(rng.range(1, sc.blocks.len() as u64 - 1) as usize),
 						_ => rand_read(rng, &sc),
 					}
 				} else if cfg.long && rng.chance(1, 10) {
@@ -3107,6 +3328,835 @@ fn nestread(out: &mut Out, work: &str, seed: u64, thorough: bool) {
 	std::process::exit(0);
 }
 
+/// Run `pibd` (C17: the state-RECEIVING side under concurrency — desegmenter.rs, an anchor file).
+/// A node whose headers are synced receives its state through `Chain::desegmenter()` exactly as
+/// servers/src/common/adapters.rs (`receive_*_segment`: every call goes through
+/// `chain.desegmenter(&archive_header)?.write()`) and servers/src/grin/sync/state_sync.rs
+/// (`continue_pibd`: `try_write()` → `apply_next_segments`, `write()` → `check_progress`,
+/// `next_desired_segments`) drive it — from several threads at once, while other threads use the
+/// same Chain: a header-gossip thread (`process_block_header` of a less-work fork,
+/// `sync_block_headers` duplicates, `process_block` of far-ahead blocks = orphans) and readers
+/// (head / header view under `header_pmmr.read()` / `txhashset.read()` + roots / get_unspent /
+/// get_header_by_height).  Peers: two threads that serve the wanted segments from a source node's
+/// `segmenter()`, with duplicates (both may serve the same identifier) and a malformed stream
+/// (a bitmap segment with a wrong output-root argument; segments of ANOTHER chain with the same
+/// identifier) that must be refused.
+/// Oracles: nothing panics, the threads finish (progress watchdog), every malformed segment is
+/// refused and every genuine one accepted, the header view invariant holds throughout, the sync
+/// completes, `check_update_leaf_set_state` + `validate_complete_state` pass, the roots are the
+/// archive header's, the body head is the archive header; then the blocks above it are delivered
+/// and (head, header head, unspent set) must equal the source node's.
+fn pibd(out: &mut Out, work: &str, seed: u64, thorough: bool) {
+	use grin_chain::pibd_params::verif_hooks::set_segment_heights;
+	use grin_chain::types::SyncState;
+	use grin_core::core::pmmr::segment::SegmentType;
+	use grin_util::StopState;
+	use std::collections::VecDeque;
+	for (op, class) in [
+		("desegmenter", "other"),
+		("txhashset_archive_header_header_only", "read-hp"),
+		("Desegmenter::add_bitmap_segment", "other"),
+		("Desegmenter::add_output_segment", "other"),
+		("Desegmenter::add_rangeproof_segment", "other"),
+		("Desegmenter::add_kernel_segment", "other"),
+		("Desegmenter::apply_next_segments", "write"),
+		("Desegmenter::check_progress", "read-ts"),
+		("Desegmenter::next_desired_segments", "read-ts"),
+		("Desegmenter::check_update_leaf_set_state", "write"),
+		("Desegmenter::validate_complete_state", "write"),
+		("process_block_header", "write"),
+		("sync_block_headers", "write"),
+		("process_block", "write"),
+		("get_unspent", "read-ts"),
+		("get_header_by_height", "read-hp"),
+	] {
+		out.line(&format!("conc opclass {}", op), class);
+	}
+	out.line("conc tablecheck", "ok");
+	let rounds = if thorough { 6 } else { 2 };
+	let mut stats: BTreeMap<String, u64> = BTreeMap::new();
+	let mut rng = Rng::new(seed ^ 0x91BD);
+	for round in 0..rounds {
+		let tag = format!("#ORACLE-FAIL C17 pibd round={} seed={}:", round, seed);
+		let kit = Kit::new(&format!("{}/pb_builder{}", work, round));
+		let mut b = Builder { kit, states: BTreeMap::new(), stats: BTreeMap::new(), reserved: Default::default() };
+		let mut s0 = BTreeMap::new();
+		s0.insert(0usize, (0u64, true));
+		b.states.insert(0, s0);
+		let top = 30 + rng.below(8);
+		let fork_h = 5u64;
+		let mut main = vec![0usize];
+		let mut tip = 0usize;
+		for h in 1..=top {
+			match b.add(&mut rng, tip, 3, if h > 4 { 2 } else { 0 }) {
+				Some(id) => {
+					tip = id;
+					main.push(id);
+				}
+				None => panic!("pibd: cannot build the main chain"),
+			}
+		}
+		// the other chain: less work per height (its headers never become the header head)
+		let mut fork: Vec<usize> = vec![];
+		let mut ftip = main[fork_h as usize];
+		for h in (fork_h + 1)..top {
+			match b.add(&mut rng, ftip, 2, if h % 2 == 0 { 1 } else { 0 }) {
+				Some(id) => {
+					ftip = id;
+					fork.push(id);
+				}
+				None => panic!("pibd: cannot build the fork"),
+			}
+		}
+		let kit = &b.kit;
+		// the tree and the source node's deliveries go through the chain model; the state of every
+		// state-synced node is compared with the model's state of the source (`chain obs`)
+		out.raw("chain reset");
+		for l in kit.out_lines(0) {
+			out.raw(&l);
+		}
+		for id in 0..kit.blks.len() {
+			out.raw(&kit.blk_line(id));
+		}
+		let name = format!("pb{}", round);
+		out.raw(&format!("chain new {}", name));
+		let src = Subject::new(&format!("{}/pb_src{}", work, round), &kit.genesis);
+		for id in main[1..].iter() {
+			let r = src.deliver_block(&kit.blks[*id].block);
+			out.line(&format!("chain deliver {} b{}", name, id), &r);
+			if !r.starts_with("ok") {
+				out.raw(&format!("{} harness: source node refused main block b{}: {}", tag, id, r));
+			}
+		}
+		out.line(&format!("chain obs {}", name), &src.obs(kit));
+		let src2 = Subject::new(&format!("{}/pb_src2_{}", work, round), &kit.genesis);
+		for id in main[1..=(fork_h as usize)].iter().chain(fork.iter()) {
+			let _ = src2.deliver_block(&kit.blks[*id].block);
+		}
+		let src = Arc::new(src);
+		let src2 = Arc::new(src2);
+		let episodes = if thorough { 12 } else { 5 };
+		for ep in 0..episodes {
+		let tag = format!("#ORACLE-FAIL C17 pibd round={} episode={} seed={}:", round, ep, seed);
+		let dest = Subject::new(&format!("{}/pb_dest{}_{}", work, round, ep), &kit.genesis);
+		let headers: Vec<BlockHeader> = main[1..].iter().map(|i| kit.blks[*i].block.header.clone()).collect();
+		let r = dest.sync_headers(&headers);
+		if r != "ok" {
+			out.raw(&format!("{} harness: header sync of the receiving node failed: {}", tag, r));
+			continue;
+		}
+		let ah = dest.c().txhashset_archive_header_header_only().unwrap();
+		let src_ah = src.c().txhashset_archive_header().unwrap();
+		if ah.hash() != src_ah.hash() {
+			out.raw(&format!("{} harness: archive headers differ (receiver {} @ {}, source {} @ {})", tag, ah.hash(), ah.height, src_ah.hash(), src_ah.height));
+			continue;
+		}
+		// (no height 0 for outputs / range proofs / kernels: a one-leaf segment 0 holds the genesis entry
+		// only, which the receiver skips - its MMR never grows and it asks for segment 0 for ever; an
+		// artefact of the lowered heights, production heights are 9..11)
+		let heights = [(0u8, 2u8, 2u8, 1u8), (0, 1, 1, 1), (0, 3, 2, 2), (0, 1, 2, 1), (0, 2, 1, 2)][(ep + round) % 5];
+		set_segment_heights(Some(heights));
+		*stats.entry(format!("pibd:segment-heights={:?}", heights)).or_insert(0) += 1;
+		// created here so that the segment heights are in force
+		let _ = dest.c().desegmenter(&ah).unwrap();
+
+		let dest = Arc::new(dest);
+		let queue: Arc<Mutex<VecDeque<(u8, u8, u64)>>> = Arc::new(Mutex::new(VecDeque::new()));
+		let done = Arc::new(AtomicBool::new(false));
+		let progress = Arc::new(AtomicUsize::new(0));
+		// (thread, op names run (capped), counters, failures)
+		let (txc, rxc) = mpsc::channel::<(usize, Vec<&'static str>, BTreeMap<String, u64>, Vec<String>)>();
+		let n_threads = 6usize;
+		let t_start = Instant::now();
+		let limit = Duration::from_secs(if thorough { 240 } else { 120 });
+
+		// --- T0: the sync thread (state_sync.rs continue_pibd)
+		{
+			let (dest, queue, done, progress, txc) = (dest.clone(), queue.clone(), done.clone(), progress.clone(), txc.clone());
+			std::thread::spawn(move || {
+				setup_globals();
+				let mut names: Vec<&'static str> = vec![];
+				let mut cnt: BTreeMap<String, u64> = BTreeMap::new();
+				let mut bad: Vec<String> = vec![];
+				let status = Arc::new(SyncState::new());
+				let mut complete = false;
+				let t0 = Instant::now();
+				let mut rounds = 0u64;
+				while !complete && t0.elapsed() < limit {
+					rounds += 1;
+					let r = std::panic::catch_unwind(AssertUnwindSafe(|| -> Result<(bool, Vec<(u8, u8, u64)>), String> {
+						let ah = dest.c().txhashset_archive_header_header_only().map_err(|e| error_class(&e))?;
+						let deseg = dest.c().desegmenter(&ah).map_err(|e| error_class(&e))?;
+						let mut applied = "busy";
+						if let Some(mut de) = deseg.try_write() {
+							if let Some(d) = de.as_mut() {
+								d.apply_next_segments().map_err(|e| format!("apply_next_segments: {}", error_class(&e)))?;
+								applied = "applied";
+							}
+						}
+						let mut wanted = vec![];
+						let mut fin = false;
+						if let Some(d) = deseg.write().as_mut() {
+							match d.check_progress(status.clone()) {
+								Ok(true) => fin = true,
+								Ok(false) => {}
+								Err(e) => return Err(format!("check_progress: {}", error_class(&e))),
+							}
+							if !fin {
+								for x in d.next_desired_segments(12) {
+									let t = match x.segment_type {
+										SegmentType::Bitmap => 0u8,
+										SegmentType::Output => 1,
+										SegmentType::RangeProof => 2,
+										SegmentType::Kernel => 3,
+									};
+									wanted.push((t, x.identifier.height, x.identifier.idx));
+								}
+							}
+						}
+						let _ = applied;
+						Ok((fin, wanted))
+					}));
+					if names.len() < 40 {
+						names.extend_from_slice(&["txhashset_archive_header_header_only", "desegmenter", "Desegmenter::apply_next_segments", "Desegmenter::check_progress", "Desegmenter::next_desired_segments"]);
+					}
+					match r {
+						Ok(Ok((fin, wanted))) => {
+							complete = fin;
+							*cnt.entry(format!("sync:wanted-per-round={}", wanted.len().min(12))).or_insert(0) += 1;
+							let mut q = queue.lock().unwrap();
+							for w in wanted {
+								if !q.contains(&w) {
+									q.push_back(w);
+								}
+							}
+						}
+						Ok(Err(e)) => {
+							bad.push(format!("the sync thread's step failed: {}", e));
+							break;
+						}
+						Err(_) => {
+							bad.push("the sync thread's step (apply_next_segments / check_progress / next_desired_segments) panicked".to_string());
+							break;
+						}
+					}
+					progress.fetch_add(1, Ordering::SeqCst);
+					if rounds % 3 == 0 {
+						std::thread::sleep(Duration::from_micros(300));
+					} else {
+						std::thread::yield_now();
+					}
+				}
+				*cnt.entry(format!("sync:complete={}", complete)).or_insert(0) += 1;
+				*cnt.entry("sync:rounds".into()).or_insert(0) += rounds;
+				if !complete && bad.is_empty() {
+					bad.push(format!("the state sync did not complete within {:?} ({} rounds of apply / check_progress / next_desired_segments)", limit, rounds));
+				}
+				done.store(true, Ordering::SeqCst);
+				let _ = txc.send((0, names, cnt, bad));
+			});
+		}
+		// --- T1, T2: peers (adapters.rs receive_*_segment)
+		for p in 1..=2usize {
+			let (dest, src, src2, queue, done, progress, txc) = (dest.clone(), src.clone(), src2.clone(), queue.clone(), done.clone(), progress.clone(), txc.clone());
+			let mut prng = Rng::new(rng.next() ^ (p as u64 * 0x51));
+			std::thread::spawn(move || {
+				setup_globals();
+				let mut names: Vec<&'static str> = vec![];
+				let mut cnt: BTreeMap<String, u64> = BTreeMap::new();
+				let mut bad: Vec<String> = vec![];
+				while !done.load(Ordering::SeqCst) {
+					// the other peer may serve the same identifier: peek instead of pop now and then
+					let item = {
+						let mut q = queue.lock().unwrap();
+						if prng.chance(1, 5) { q.front().cloned() } else { q.pop_front() }
+					};
+					let (t, h, idx) = match item {
+						Some(x) => x,
+						None => {
+							std::thread::sleep(Duration::from_micros(200));
+							continue;
+						}
+					};
+					let id = SegmentIdentifier { height: h, idx };
+					// which stream: genuine / wrong-root (bitmap) / other chain
+					let kind = match prng.below(8) {
+						0 => "other-chain",
+						1 if t == 0 => "wrong-root",
+						_ => "genuine",
+					};
+					let mut todo = vec![kind];
+					if kind != "genuine" {
+						todo.push("genuine"); // the genuine one follows, or the sync would never end
+					}
+					for kind in todo {
+						let node = if kind == "other-chain" { &src2 } else { &src };
+						let r = std::panic::catch_unwind(AssertUnwindSafe(|| -> Result<Result<(), String>, String> {
+							let sg = node.c().segmenter().map_err(|e| format!("segmenter: {}", error_class(&e)))?;
+							let ah = dest.c().txhashset_archive_header_header_only().map_err(|e| error_class(&e))?;
+							let deseg = dest.c().desegmenter(&ah).map_err(|e| error_class(&e))?;
+							let res = match t {
+								0 => {
+									let (seg, root) = sg.bitmap_segment(id).map_err(|e| format!("not-served: {}", error_class(&e)))?;
+									let root = if kind == "wrong-root" { Hash::from_vec(&[0x5a; 32]) } else { root };
+									let mut g = deseg.write();
+									g.as_mut().map(|d| d.add_bitmap_segment(seg, root))
+								}
+								1 => {
+									let (seg, root) = sg.output_segment(id).map_err(|e| format!("not-served: {}", error_class(&e)))?;
+									let mut g = deseg.write();
+									g.as_mut().map(|d| d.add_output_segment(seg, Some(root)))
+								}
+								2 => {
+									let seg = sg.rangeproof_segment(id).map_err(|e| format!("not-served: {}", error_class(&e)))?;
+									let mut g = deseg.write();
+									g.as_mut().map(|d| d.add_rangeproof_segment(seg))
+								}
+								_ => {
+									let seg = sg.kernel_segment(id).map_err(|e| format!("not-served: {}", error_class(&e)))?;
+									let mut g = deseg.write();
+									g.as_mut().map(|d| d.add_kernel_segment(seg))
+								}
+							};
+							match res {
+								Some(Ok(())) => Ok(Ok(())),
+								Some(Err(e)) => Ok(Err(error_class(&e))),
+								None => Err("no desegmenter".to_string()),
+							}
+						}));
+						let tn = ["bitmap", "output", "rangeproof", "kernel"][t as usize];
+						if names.len() < 40 {
+							names.extend_from_slice(&["txhashset_archive_header_header_only", "desegmenter", ["Desegmenter::add_bitmap_segment", "Desegmenter::add_output_segment", "Desegmenter::add_rangeproof_segment", "Desegmenter::add_kernel_segment"][t as usize]]);
+						}
+						match r {
+							Ok(Ok(Ok(()))) => {
+								*cnt.entry(format!("peer:{}:{}:accepted", tn, kind)).or_insert(0) += 1;
+								if kind != "genuine" {
+									bad.push(format!("a malformed {} segment ({},{}) [{}] was ACCEPTED by the desegmenter", tn, h, idx, kind));
+								}
+							}
+							Ok(Ok(Err(e))) => {
+								*cnt.entry(format!("peer:{}:{}:refused", tn, kind)).or_insert(0) += 1;
+								if kind == "genuine" {
+									bad.push(format!("the genuine {} segment ({},{}) served by the source node's segmenter was refused: {}", tn, h, idx, e));
+								}
+							}
+							Ok(Err(e)) => {
+								*cnt.entry(format!("peer:{}:{}:{}", tn, kind, if e.starts_with("not-served") { "not-served" } else { "error" })).or_insert(0) += 1;
+								if kind == "genuine" {
+									bad.push(format!("peer step for the {} segment ({},{}) failed: {}", tn, h, idx, e));
+								}
+							}
+							Err(_) => bad.push(format!("adding a {} segment ({},{}) [{}] panicked", tn, h, idx, kind)),
+						}
+						progress.fetch_add(1, Ordering::SeqCst);
+						if bad.len() > 8 {
+							break;
+						}
+					}
+					if bad.len() > 8 {
+						break;
+					}
+					match prng.below(4) {
+						0 => std::thread::yield_now(),
+						1 => std::thread::sleep(Duration::from_micros(prng.range(5, 300))),
+						_ => {}
+					}
+				}
+				let _ = txc.send((p, names, cnt, bad));
+			});
+		}
+		// --- T3: header gossip / far-ahead blocks
+		{
+			let (dest, done, progress, txc) = (dest.clone(), done.clone(), progress.clone(), txc.clone());
+			let fork_headers: Vec<BlockHeader> = fork.iter().map(|i| kit.blks[*i].block.header.clone()).collect();
+			let main_headers = headers.clone();
+			let far_blocks: Vec<Block> = main[(main.len() - 3)..].iter().map(|i| kit.blks[*i].block.clone()).collect();
+			let mut prng = Rng::new(rng.next() ^ 0x4EAD);
+			std::thread::spawn(move || {
+				setup_globals();
+				let mut names: Vec<&'static str> = vec![];
+				let mut cnt: BTreeMap<String, u64> = BTreeMap::new();
+				let mut bad: Vec<String> = vec![];
+				let mut next_fork = 0usize;
+				let mut n = 0u64;
+				while !done.load(Ordering::SeqCst) && n < 4000 {
+					n += 1;
+					let r = std::panic::catch_unwind(AssertUnwindSafe(|| match prng.below(4) {
+						0 | 1 => {
+							let h = &fork_headers[next_fork.min(fork_headers.len() - 1)];
+							("process_block_header", dest.deliver_header(h))
+						}
+						2 => {
+							let a = prng.below(main_headers.len() as u64) as usize;
+							let e = (a + 1 + prng.below(4) as usize).min(main_headers.len());
+							("sync_block_headers", dest.sync_headers(&main_headers[a..e]))
+						}
+						_ => ("process_block", dest.deliver_block(prng.pick(&far_blocks))),
+					}));
+					match r {
+						Ok((nm, res)) => {
+							if nm == "process_block_header" && next_fork < fork_headers.len() {
+								if res == "ok" {
+									next_fork += 1;
+								}
+							}
+							if names.len() < 40 {
+								names.push(nm);
+								if nm == "sync_block_headers" {
+									names.push("header_head");
+								}
+							}
+							*cnt.entry(format!("gossip:{}:{}", nm, res)).or_insert(0) += 1;
+							if nm == "process_block" && res.starts_with("ok") {
+								bad.push(format!("a block far above the body head was accepted ({}) while the state is being received", res));
+							}
+						}
+						Err(_) => bad.push("a header / block delivery panicked during the state sync".to_string()),
+					}
+					progress.fetch_add(1, Ordering::SeqCst);
+					std::thread::sleep(Duration::from_micros(prng.range(50, 600)));
+				}
+				let _ = txc.send((3, names, cnt, bad));
+			});
+		}
+		// --- T4, T5: readers
+		for p in 4..=5usize {
+			let (dest, done, progress, txc) = (dest.clone(), done.clone(), progress.clone(), txc.clone());
+			let commits: Vec<Commitment> = kit.outs.iter().map(|o| o.commit).collect();
+			let genesis_hash = kit.genesis.hash();
+			let max_h = top;
+			let mut prng = Rng::new(rng.next() ^ (p as u64 * 0x77));
+			std::thread::spawn(move || {
+				setup_globals();
+				let mut names: Vec<&'static str> = vec![];
+				let mut cnt: BTreeMap<String, u64> = BTreeMap::new();
+				let mut bad: Vec<String> = vec![];
+				let mut n = 0u64;
+				while !done.load(Ordering::SeqCst) && n < 20000 {
+					n += 1;
+					let c = dest.c();
+					let r = std::panic::catch_unwind(AssertUnwindSafe(|| -> (&'static str, Option<String>) {
+						match prng.below(5) {
+							0 => {
+								let h = c.head().unwrap();
+								if h.last_block_h != genesis_hash && c.get_block(&h.last_block_h).is_err() && c.get_block_header(&h.last_block_h).is_err() {
+									return ("head", Some(format!("head {} @ {} names nothing stored", h.last_block_h, h.height)));
+								}
+								("head", None)
+							}
+							1 => {
+								let hp = c.header_pmmr();
+								let g = hp.read();
+								match (c.header_head(), g.head_hash()) {
+									(Ok(hh), Ok(mh)) if mh == hh.last_block_h => ("header_pmmr", None),
+									(Ok(hh), Ok(mh)) => ("header_pmmr", Some(format!("view under header_pmmr.read(): header MMR head {} is not the LMDB header head {} @ {}", mh, hh.last_block_h, hh.height))),
+									_ => ("header_pmmr", Some("header view failed".to_string())),
+								}
+							}
+							2 => {
+								let ts = c.txhashset();
+								let g = ts.read();
+								let _ = g.roots();
+								let _ = (g.output_mmr_size(), g.kernel_mmr_size(), g.rangeproof_mmr_size());
+								("txhashset", None)
+							}
+							3 => {
+								let _ = c.get_unspent(*prng.pick(&commits));
+								("get_unspent", None)
+							}
+							_ => {
+								let h = prng.below(max_h + 2);
+								match c.get_header_by_height(h) {
+									Ok(x) if x.height != h => ("get_header_by_height", Some(format!("get_header_by_height({}) answered height {}", h, x.height))),
+									_ => ("get_header_by_height", None),
+								}
+							}
+						}
+					}));
+					match r {
+						Ok((nm, e)) => {
+							if names.len() < 40 {
+								names.push(nm);
+								if nm == "header_pmmr" {
+									names.push("header_head");
+								}
+							}
+							*cnt.entry(format!("reader:{}", nm)).or_insert(0) += 1;
+							if let Some(e) = e {
+								if bad.len() < 4 {
+									bad.push(e);
+								}
+							}
+						}
+						Err(_) => {
+							if bad.len() < 4 {
+								bad.push("a reader panicked during the state sync".to_string());
+							}
+						}
+					}
+					progress.fetch_add(1, Ordering::SeqCst);
+					if n % 8 == 0 {
+						std::thread::sleep(Duration::from_micros(prng.range(20, 200)));
+					}
+				}
+				let _ = txc.send((p, names, cnt, bad));
+			});
+		}
+		drop(txc);
+		// --- watchdog on progress (no op completed anywhere for `stall`)
+		let stall = Duration::from_secs(if thorough { 120 } else { 60 });
+		let mut finished = 0usize;
+		let mut last = (progress.load(Ordering::SeqCst), Instant::now());
+		let mut progs: Vec<Vec<&'static str>> = vec![vec![]; n_threads];
+		let mut any_bad = false;
+		while finished < n_threads {
+			match rxc.recv_timeout(Duration::from_millis(500)) {
+				Ok((i, names, cnt, bad)) => {
+					finished += 1;
+					progs[i] = names;
+					for (k, v) in cnt {
+						*stats.entry(format!("pibd:{}", k)).or_insert(0) += v;
+					}
+					for m in bad {
+						any_bad = true;
+						out.raw(&format!("{} {}", tag, m));
+					}
+				}
+				Err(_) => {
+					let c = progress.load(Ordering::SeqCst);
+					if c != last.0 {
+						last = (c, Instant::now());
+						continue;
+					}
+					if last.1.elapsed() < stall {
+						continue;
+					}
+					out.raw(&format!(
+						"#ORACLE-FAIL C17 deadlock pibd round={} episode={} seed={}: no step of any thread (sync thread / 2 peers adding segments through Chain::desegmenter().write() / header gossip / 2 readers) completed for {:?}; {} of {} threads had finished",
+						round, ep, seed, stall, finished, n_threads
+					));
+					for (k, v) in &stats {
+						out.raw(&format!("#STAT {}={}", k, v));
+					}
+					out.flush();
+					std::process::exit(0);
+				}
+			}
+		}
+		set_segment_heights(None);
+		*stats.entry("pibd:concurrent-phase-ms".into()).or_insert(0) += t_start.elapsed().as_millis() as u64;
+		let progs_s: Vec<String> = progs.iter().map(|p| p.join("+")).collect();
+		out.line(&format!("conc sim seed={} progs={}", rng.below(1 << 30), progs_s.join(",")), "finished");
+
+		// --- the received state
+		let mut verdict = "ok".to_string();
+		if any_bad {
+			verdict = "failed-concurrent-phase".to_string();
+		} else {
+			let c = dest.c();
+			let deseg = c.desegmenter(&ah).unwrap();
+			let fin = std::panic::catch_unwind(AssertUnwindSafe(|| {
+				let g = deseg.write();
+				let d = g.as_ref().unwrap();
+				d.check_update_leaf_set_state().map_err(|e| format!("check_update_leaf_set_state: {}", error_class(&e)))?;
+				d.validate_complete_state(Arc::new(SyncState::new()), Arc::new(StopState::new())).map_err(|e| format!("validate_complete_state: {}", error_class(&e)))
+			}));
+			match fin {
+				Ok(Ok(())) => {}
+				Ok(Err(e)) => {
+					out.raw(&format!("{} the state received concurrently does not validate: {}", tag, e));
+					verdict = "invalid-state".to_string();
+				}
+				Err(_) => {
+					out.raw(&format!("{} check_update_leaf_set_state / validate_complete_state panicked", tag));
+					verdict = "panic".to_string();
+				}
+			}
+			if verdict == "ok" {
+				let roots_ok = c.txhashset().read().roots().map(|r| r.validate(&ah).is_ok()).unwrap_or(false);
+				if !roots_ok {
+					out.raw(&format!("{} the received state has other roots than the archive header", tag));
+					verdict = "wrong-roots".to_string();
+				}
+				let head = c.head().unwrap();
+				if head.last_block_h != ah.hash() {
+					out.raw(&format!("{} after validate_complete_state the body head is {} @ {}, not the archive header {} @ {}", tag, head.last_block_h, head.height, ah.hash(), ah.height));
+					verdict = "wrong-head".to_string();
+				}
+			}
+			if verdict == "ok" {
+				// body sync of the rest, then the node must be where the source node is
+				for id in main[(ah.height as usize + 1)..].iter() {
+					let r = dest.deliver_block(&kit.blks[*id].block);
+					// (the far-ahead blocks gossiped during the sync sit in the orphan pool and are adopted as
+					// soon as their parent arrives: delivering them again is answered "already known")
+					*stats.entry(format!("pibd:body-sync:{}", r)).or_insert(0) += 1;
+					if !r.starts_with("ok") && r != "err:Unfit" {
+						out.raw(&format!("{} after the state sync block b{} (height {}) is refused: {}", tag, id, kit.blks[*id].height, r));
+						verdict = "block-refused".to_string();
+						break;
+					}
+				}
+			}
+			if verdict == "ok" {
+				let (a, bsrc) = (dest.obs(kit), src.obs(kit));
+				out.line(&format!("chain obs {}", name), &a);
+				if a != bsrc {
+					out.raw(&format!("{} after state sync + body sync the node is at [{}], the source node at [{}]", tag, a, bsrc));
+					verdict = "state-differs".to_string();
+				}
+				if let Err(e) = c.validate(true) {
+					out.raw(&format!("{} validate(fast) fails on the state-synced node: {}", tag, error_class(&e)));
+					verdict = "validate-fails".to_string();
+				}
+				*stats.entry(format!("pibd:orphans-left={}", c.orphans_len().min(9))).or_insert(0) += 1;
+			}
+		}
+		out.line(&format!("conc pibd round={} episode={} archive_height={} top={} fork_headers={} heights={}/{}/{}/{}", round, ep, ah.height, top, fork.len(), heights.0, heights.1, heights.2, heights.3), &verdict);
+		out.flush();
+		}
+	}
+	for (k, v) in &stats {
+		out.raw(&format!("#STAT {}={}", k, v));
+	}
+	out.flush();
+}
+
+/// Run `zipwin` (C17: installing a zipped state - `Chain::txhashset_write`, reachable from the p2p
+/// TxHashSetArchive message - while readers use the same Chain).  Regression probe of finding
+/// C17-txhashset-write-window, found by this run and repaired in /repo: the op committed the new head,
+/// output_pos index and block sums to LMDB holding `header_pmmr.write()` only and took
+/// `txhashset.write()` to swap the MMR files in afterwards (6 of 6 episodes showed a reader holding
+/// `txhashset.read()` the installed head with the genesis MMR state).  Now
+/// `txhashset_write_commits_under_ts_write` is decided on the regenerated table and a relapse is
+/// reported as `#KNOWN-PROBE C17 txhashset-write-window` (= violation).  Here the op really runs: a source node zips its state at the
+/// archive header (`txhashset_read`), a fresh node with the headers synced installs it
+/// (`txhashset_write`) while three readers loop over ONE-VIEW reads: `txhashset.read()` held, then
+/// `head_header()` and `roots()` (MMR state = state of the LMDB head header, the oracle of the `View`
+/// op of the mixes), and under the same guard `get_unspent` of outputs that are unspent at the
+/// archive header once `head()` is the archive header.
+fn zipwin(out: &mut Out, work: &str, seed: u64, thorough: bool) {
+	use grin_chain::types::SyncState;
+	use std::io::Read;
+	for (op, class) in [("txhashset_write", "write"), ("txhashset_read", "write"), ("txhashset", "lockfree"), ("head_header", "lockfree"), ("head", "lockfree")] {
+		out.line(&format!("conc opclass {}", op), class);
+	}
+	let rounds = if thorough { 3 } else { 1 };
+	let episodes = if thorough { 12 } else { 6 };
+	let mut stats: BTreeMap<String, u64> = BTreeMap::new();
+	let mut rng = Rng::new(seed ^ 0x21B);
+	for round in 0..rounds {
+		let kit = Kit::new(&format!("{}/zw_builder{}/chain", work, round));
+		let mut b = Builder { kit, states: BTreeMap::new(), stats: BTreeMap::new(), reserved: Default::default() };
+		let mut s0 = BTreeMap::new();
+		s0.insert(0usize, (0u64, true));
+		b.states.insert(0, s0);
+		let top = 30 + rng.below(8);
+		let mut main = vec![0usize];
+		let mut tip = 0usize;
+		for h in 1..=top {
+			match b.add(&mut rng, tip, 3, if h > 4 { 2 } else { 0 }) {
+				Some(id) => {
+					tip = id;
+					main.push(id);
+				}
+				None => panic!("zipwin: cannot build the main chain"),
+			}
+		}
+		let kit = &b.kit;
+		let src = Subject::new(&format!("{}/zw_src{}/chain", work, round), &kit.genesis);
+		for id in main[1..].iter() {
+			let _ = src.deliver_block(&kit.blks[*id].block);
+		}
+		let ah = src.c().txhashset_archive_header().unwrap();
+		let bytes: Vec<u8> = match src.c().txhashset_read(ah.hash()) {
+			Ok((_, _, mut f)) => {
+				let mut v = vec![];
+				f.read_to_end(&mut v).unwrap();
+				v
+			}
+			Err(e) => {
+				out.raw(&format!("#ORACLE-FAIL C17 zipwin round={} seed={}: txhashset_read of the archive header failed: {}", round, seed, error_class(&e)));
+				continue;
+			}
+		};
+		let unspent_at_archive: Vec<Commitment> = b.states[&main[ah.height as usize]].keys().map(|o| kit.outs[*o].commit).collect();
+		let headers: Vec<BlockHeader> = main[1..].iter().map(|i| kit.blks[*i].block.header.clone()).collect();
+		for ep in 0..episodes {
+			let tag = format!("#ORACLE-FAIL C17 zipwin round={} episode={} seed={}:", round, ep, seed);
+			let dir = format!("{}/zw_dest{}_{}/chain", work, round, ep);
+			let _ = std::fs::create_dir_all(&dir);
+			let dest = Subject::new(&dir, &kit.genesis);
+			if dest.sync_headers(&headers) != "ok" {
+				out.raw(&format!("{} harness: header sync failed", tag));
+				continue;
+			}
+			let dest = Arc::new(dest);
+			let done = Arc::new(AtomicBool::new(false));
+			let (txc, rxc) = mpsc::channel::<(usize, u64, Vec<String>)>();
+			for r in 0..3usize {
+				let (dest, done, txc) = (dest.clone(), done.clone(), txc.clone());
+				let commits = unspent_at_archive.clone();
+				let ah_hash = ah.hash();
+				let mut prng = Rng::new(rng.next() ^ (r as u64 * 0x33));
+				std::thread::spawn(move || {
+					setup_globals();
+					let mut bad: Vec<String> = vec![];
+					let mut n = 0u64;
+					loop {
+						let fin = done.load(Ordering::SeqCst);
+						n += 1;
+						let c = dest.c();
+						let res = std::panic::catch_unwind(AssertUnwindSafe(|| -> Option<String> {
+							let ts = c.txhashset();
+							let g = ts.read();
+							// the view is held for a moment (a reader doing some work under its guard)
+							let spin = prng.range(0, 3000);
+							let mut x = 0u64;
+							for i in 0..spin {
+								x = x.wrapping_add(i).rotate_left(3);
+							}
+							std::hint::black_box(x);
+							if prng.chance(1, 2) {
+								let hh = c.head_header().ok()?;
+								let roots = g.roots().ok()?;
+								if hh.height > 0 {
+									let ok = roots.kernel_root == hh.kernel_root && roots.rproof_root == hh.range_proof_root && roots.output_root(&hh) == hh.output_root && g.kernel_mmr_size() == hh.kernel_mmr_size && g.output_mmr_size() == hh.output_mmr_size;
+									if !ok {
+										return Some(format!(
+											"view under txhashset.read(): the LMDB head header is {} @ {} (kernel MMR size {}, output MMR size {}) but the MMR state under the guard has kernel size {}, output size {}",
+											hh.hash(), hh.height, hh.kernel_mmr_size, hh.output_mmr_size, g.kernel_mmr_size(), g.output_mmr_size()
+										));
+									}
+								}
+							} else {
+								let head = c.head().ok()?;
+								if head.last_block_h == ah_hash {
+									let cm = *prng.pick(&commits);
+									match g.get_unspent(cm) {
+										Ok(Some(_)) => {}
+										other => {
+											return Some(format!(
+												"under one txhashset.read(): head() is the installed archive header @ {} but get_unspent of an output unspent in that state answers {}",
+												head.height,
+												match other { Ok(None) => "None (spent / unknown)".to_string(), Err(e) => format!("Err({})", error_class(&e)), _ => String::new() }
+											))
+										}
+									}
+								}
+							}
+							None
+						}));
+						match res {
+							Ok(Some(m)) => {
+								if bad.len() < 2 {
+									bad.push(m);
+								}
+							}
+							Ok(None) => {}
+							Err(_) => {
+								if bad.len() < 2 {
+									bad.push("a reader panicked while the state was being installed".to_string());
+								}
+							}
+						}
+						if fin {
+							break;
+						}
+					}
+					let _ = txc.send((r, n, bad));
+				});
+			}
+			drop(txc);
+			// the writer, on this thread's child (watchdog below)
+			let (txw, rxw) = mpsc::channel::<String>();
+			{
+				let dest = dest.clone();
+				let bytes = bytes.clone();
+				let path = format!("{}/zw_dest{}_{}/incoming.zip", work, round, ep);
+				let h = ah.hash();
+				std::thread::spawn(move || {
+					setup_globals();
+					std::thread::sleep(Duration::from_millis(3));
+					std::fs::write(&path, &bytes).unwrap();
+					let f = std::fs::File::open(&path).unwrap();
+					let status = SyncState::new();
+					let r = std::panic::catch_unwind(AssertUnwindSafe(|| dest.c().txhashset_write(h, f, &status)));
+					let _ = txw.send(match r {
+						Ok(Ok(false)) => "replaced".to_string(),
+						Ok(Ok(true)) => "ban".to_string(),
+						Ok(Err(e)) => format!("failed:{}", error_class(&e)),
+						Err(_) => "panic".to_string(),
+					});
+				});
+			}
+			let wres = match rxw.recv_timeout(Duration::from_secs(if thorough { 240 } else { 120 })) {
+				Ok(r) => r,
+				Err(_) => {
+					out.raw(&format!("#ORACLE-FAIL C17 deadlock zipwin round={} episode={} seed={}: txhashset_write did not return within the watchdog bound while three readers loop over txhashset.read() views", round, ep, seed));
+					out.flush();
+					std::process::exit(0);
+				}
+			};
+			done.store(true, Ordering::SeqCst);
+			let mut window_hits = 0u64;
+			for _ in 0..3 {
+				match rxc.recv_timeout(Duration::from_secs(60)) {
+					Ok((_, n, bad)) => {
+						*stats.entry("zipwin:reader-views".into()).or_insert(0) += n;
+						for m in bad {
+							window_hits += 1;
+							if window_hits <= 2 {
+								if m.contains("panicked") {
+									out.raw(&format!("{} {}", tag, m));
+								} else {
+									// the repaired defect C17-txhashset-write-window is back (a relapse = violation)
+									out.raw(&format!(
+										"#KNOWN-PROBE C17 txhashset-write-window: zipwin round={} episode={} seed={}: {} - while Chain::txhashset_write installs the source node's archive (archive header height {}, source chain of {} blocks): the new head is visible in LMDB to a reader holding txhashset.read() before the MMR files are swapped in",
+										round, ep, seed, m, ah.height, top
+									));
+								}
+							}
+						}
+					}
+					Err(_) => {
+						out.raw(&format!("#ORACLE-FAIL C17 deadlock zipwin round={} episode={} seed={}: a reader does not finish after the install returned", round, ep, seed));
+						out.flush();
+						std::process::exit(0);
+					}
+				}
+			}
+			*stats.entry(format!("zipwin:install:{}", wres)).or_insert(0) += 1;
+			*stats.entry(format!("zipwin:episodes-with-inconsistent-view={}", window_hits.min(1))).or_insert(0) += 1;
+			let mut verdict = if wres == "replaced" { "ok".to_string() } else { wres.clone() };
+			if wres != "replaced" {
+				out.raw(&format!("{} txhashset_write of the source node's own archive answered {}", tag, wres));
+			} else {
+				let c = dest.c();
+				let head = c.head().unwrap();
+				if head.last_block_h != ah.hash() {
+					out.raw(&format!("{} after the install the head is {} @ {}", tag, head.last_block_h, head.height));
+					verdict = "wrong-head".into();
+				}
+				if let Err(e) = c.validate(true) {
+					out.raw(&format!("{} validate(fast) fails after the install: {}", tag, error_class(&e)));
+					verdict = "validate-fails".into();
+				}
+			}
+			if window_hits > 0 && verdict == "ok" {
+				verdict = "inconsistent-view".into();
+			}
+			out.line(&format!("conc zipwin round={} episode={} archive_height={} top={}", round, ep, ah.height, top), &verdict);
+			out.flush();
+		}
+	}
+	for (k, v) in &stats {
+		out.raw(&format!("#STAT {}={}", k, v));
+	}
+	out.flush();
+}
+
 fn main() {
 	quiet_panics();
 	setup_globals();
@@ -3139,6 +4189,14 @@ fn main() {
 		txcount(&mut out, &work, seed_from_env(), tier_thorough());
 		return;
 	}
+	if mode == "zipwin" {
+		zipwin(&mut out, &work, seed_from_env(), tier_thorough());
+		return;
+	}
+	if mode == "pibd" {
+		pibd(&mut out, &work, seed_from_env(), tier_thorough());
+		return;
+	}
 
 	// what the harness assumes about the locking of the ops it drives (checked against the
 	// regenerated lock table by the driver)
@@ -3163,6 +4221,20 @@ fn main() {
 		("header_head", "lockfree"),
 		("get_block", "lockfree"),
 		("txhashset", "lockfree"),
+		("header_pmmr", "lockfree"),
+		("get_merkle_proof", "write"),
+		("get_locator_hashes", "write"),
+		("verify_coinbase_maturity", "write"),
+		("validate_inputs", "read-ts"),
+		("unspent_outputs_by_pmmr_index", "read-ts"),
+		("get_last_n_output", "read-ts"),
+		("get_last_n_rangeproof", "read-ts"),
+		("get_output_pos", "read-ts"),
+		("get_unspent_output_at", "read-ts"),
+		("block_height_range_to_pmmr_indices", "read-hp"),
+		("fork_point", "read-hp"),
+		("is_orphan", "other"),
+		("orphans_len", "other"),
 	] {
 		out.line(&format!("conc opclass {}", op), class);
 	}
